@@ -1,15 +1,24 @@
-(* C10 — what the bus core of the extracted instance (Robust/Mini.v) leaves behind when a
-   connection goes away, whatever was outstanding at that moment: no pending-reply entry
-   mentions the connection on either side (a call a connection made to itself included),
-   it is in no monitor list and owns no unique name; and no NoReply error is ever addressed
-   to the connection that has just been dropped. *)
-From DV Require Import Lib.Base Gen.Tables Wire.Message Auth.Types Auth.Server Robust.Bus Robust.Mini.
+(* C10 — the teardown of a connection in the bus core of the extracted instance
+   (Robust/Mini.v, after bus_connection_disconnected): whatever was outstanding,
+
+     cleanup : afterwards NO table of the bus mentions the connection — match rules, owner
+               queues of names, services_owned records, unique names, monitors, the completed
+               list (hence n_completed and the per-uid count), pending replies on either side
+               (a call the connection made to itself included);
+     frame   : every OTHER connection's rules, unique name, queue positions, list memberships
+               and pending replies not involving the departed one are unchanged;
+     outputs : the only things said are NameOwnerChanged for names the departed one was
+               primary owner of, its own unique name's departure, and NoReply errors to
+               DIFFERENT connections that really had a call outstanding to it. *)
+From DV Require Import Lib.Base Gen.Tables Wire.Message Auth.Types Auth.Server Robust.Bus Robust.Mini Proofs.RobustBase.
+From Coq Require Import ZArith ZifyBool ZifyN ZifyNat Arith.
 Local Open Scope N_scope.
 
-Lemma drop_pending_kept l c p : In p (fst (drop_pending l c)) -> fst (fst p) <> c /\ snd (fst p) <> c.
+(* ---- pending replies ----------------------------------------------------------- *)
+Lemma drop_pending_kept l c p : In p (fst (drop_pending l c)) <-> In p l /\ fst (fst p) <> c /\ snd (fst p) <> c.
 Proof.
-  unfold drop_pending. cbn [fst]. intros H. apply filter_In in H. destruct H as [_ H]. destruct p as [[a b] s]. cbn [fst snd].
-  apply andb_true_iff in H. destruct H as [H1 H2]. apply negb_true_iff in H1, H2. apply N.eqb_neq in H1, H2. split; assumption.
+  unfold drop_pending. cbn [fst]. rewrite filter_In. destruct p as [[a b] s]. cbn [fst snd].
+  rewrite andb_true_iff, !negb_true_iff, !N.eqb_neq. tauto.
 Qed.
 
 Lemma drop_pending_errs l c x : In x (snd (drop_pending l c)) ->
@@ -21,67 +30,268 @@ Proof.
   exists a, s. repeat split; assumption.
 Qed.
 
-(* releasing names only ever announces name-owner changes *)
-Lemma release_names_outputs : forall owned names c x, In x (snd (release_names names c owned)) -> exists n a b, x = (MON, Noc n a b).
+(* ---- owner queues (first-match view, as every lookup of the model uses it) ------- *)
+Lemma bytes_eqb_sym a b : bytes_eqb a b = bytes_eqb b a.
 Proof.
-  induction owned as [|name r IH]; intros names c x; cbn [release_names]; [intros []|].
-  set (go := fix go (l : list (bytes * list N)) : list (bytes * list N) * list (N * mout) := _).
-  assert (Hgo : forall l y, In y (snd (go l)) -> exists n a b, y = (MON, Noc n a b)).
-  { induction l as [|[n q] t IHl]; intros y; cbn [go]; [intros []|].
-    destruct (bytes_eqb n name).
-    - destruct q as [|h q']; [intros []|]. destruct (h =? c); [|intros []].
-      destruct q' as [|h' q'']; cbn [snd]; intros [<-|[]]; do 3 eexists; reflexivity.
-    - destruct (go t) as [t' o] eqn:E. cbn [snd] in *. exact (IHl y). }
-  destruct (go names) as [names1 o1] eqn:E1. specialize (IH names1 c x).
-  destruct (release_names names1 c r) as [names2 o2]. cbn [snd] in *. intros H. apply in_app_iff in H. destruct H as [H|H]; [|apply IH; exact H].
-  apply (Hgo names x). rewrite E1. exact H.
+  destruct (bytes_eqb a b) eqn:E1, (bytes_eqb b a) eqn:E2; try reflexivity.
+  - apply bytes_eqb_eq in E1. subst. rewrite bytes_eqb_refl in E2. discriminate.
+  - apply bytes_eqb_eq in E2. subst. rewrite bytes_eqb_refl in E1. discriminate.
 Qed.
 
+Lemma bytes_eqb_trans_l a b n : bytes_eqb a b = true -> bytes_eqb n a = bytes_eqb n b.
+Proof. intros H. apply bytes_eqb_eq in H. subst. reflexivity. Qed.
+
+Lemma queue_release_one : forall names c nm n,
+  queue_of (fst (release_one names c nm)) n =
+  if bytes_eqb n nm then filter (not_c c) (queue_of names n) else queue_of names n.
+Proof.
+  induction names as [|[n0 q] t IH]; intros c nm n; cbn [release_one].
+  - cbn. destruct (bytes_eqb n nm); reflexivity.
+  - destruct (bytes_eqb nm n0) eqn:E.
+    + cbn [fst]. unfold queue_of. cbn [find fst]. rewrite (bytes_eqb_trans_l nm n0 n E). destruct (bytes_eqb n n0); reflexivity.
+    + specialize (IH c nm n). destruct (release_one t c nm) as [t' o]. cbn [fst] in *. unfold queue_of in *. cbn [find fst].
+      destruct (bytes_eqb n n0) eqn:E2; [|exact IH].
+      destruct (bytes_eqb n nm) eqn:E3; [|reflexivity].
+      apply bytes_eqb_eq in E2, E3. subst. rewrite bytes_eqb_refl in E. discriminate.
+Qed.
+
+Lemma filter_idem {X} (f : X -> bool) l : filter f (filter f l) = filter f l.
+Proof. induction l as [|x l IH]; [reflexivity|]. cbn [filter]. destruct (f x) eqn:E; [cbn [filter]; rewrite E, IH; reflexivity|exact IH]. Qed.
+
+Lemma queue_release_names : forall L names c n,
+  queue_of (fst (release_names names c L)) n =
+  if existsb (bytes_eqb n) L then filter (not_c c) (queue_of names n) else queue_of names n.
+Proof.
+  induction L as [|nm r IH]; intros names c n; cbn [release_names existsb]; [reflexivity|].
+  pose proof (queue_release_one names c nm n) as H1. destruct (release_one names c nm) as [names1 o1]. cbn [fst] in H1.
+  specialize (IH names1 c n). destruct (release_names names1 c r) as [names2 o2]. cbn [fst] in *.
+  rewrite IH, H1. destruct (bytes_eqb n nm), (existsb (bytes_eqb n) r); cbn [orb]; try reflexivity. apply filter_idem.
+Qed.
+
+(* what releasing says: only NameOwnerChanged of names the connection headed *)
+Lemma release_one_outputs : forall names c nm x, In x (snd (release_one names c nm)) -> exists n new, x = (MON, Noc n c new).
+Proof.
+  induction names as [|[n0 q] t IH]; intros c nm x; cbn [release_one]; [intros []|].
+  destruct (bytes_eqb nm n0).
+  - cbn [snd]. destruct q as [|h q']; [intros []|]. destruct (h =? c) eqn:E; [|intros []]. intros [<-|[]]. do 2 eexists. reflexivity.
+  - specialize (IH c nm x). destruct (release_one t c nm). exact IH.
+Qed.
+
+Lemma release_names_outputs : forall L names c x, In x (snd (release_names names c L)) -> exists n new, x = (MON, Noc n c new).
+Proof.
+  induction L as [|nm r IH]; intros names c x; cbn [release_names]; [intros []|].
+  pose proof (release_one_outputs names c nm x) as H1. destruct (release_one names c nm) as [names1 o1].
+  specialize (IH names1 c x). destruct (release_names names1 c r) as [names2 o2]. cbn [snd] in *.
+  intros H. apply in_app_iff in H. destruct H; auto.
+Qed.
+
+(* ---- the invariant that ties services_owned to the queues -------------------------- *)
+(* every queue entry has its record in services_owned (bus_connection_add_owned_service is called
+   by bus_service_add_owner for every entry, primary or waiting) *)
+Definition owned_covers (k : mstate) : Prop :=
+  forall n x, In x (queue_of (m_names k) n) -> exists n', bytes_eqb n n' = true /\ In (x, n') (m_acq k).
+
+Lemma in_owned k c n' : In (c, n') (m_acq k) -> In n' (owned k c).
+Proof. intros H. unfold owned. apply in_map_iff. exists (c, n'). split; [reflexivity|]. apply filter_In. split; [exact H|]. cbn. apply N.eqb_refl. Qed.
+
+Lemma existsb_eqb_in n n' L : bytes_eqb n n' = true -> In n' L -> existsb (bytes_eqb n) L = true.
+Proof. intros E H. apply existsb_exists. exists n'. split; assumption. Qed.
+
+Lemma not_c_filter c (q : list N) : ~ In c (filter (not_c c) q).
+Proof. intros H. apply filter_In in H. destruct H as [_ H]. unfold not_c in H. rewrite N.eqb_refl in H. discriminate. Qed.
+
+(* after td_names with the full list of owned names (in any order), c sits in no queue *)
+Lemma td_names_no_queue k c L reg :
+  owned_covers k -> (forall n', In n' (owned k c) -> In n' L) ->
+  forall n, ~ In c (queue_of (m_names (fst (td_names k c L reg))) n).
+Proof.
+  intros Hcov HL n. unfold td_names.
+  pose proof (queue_release_names L (m_names k) c n) as Hq.
+  destruct (release_names (m_names k) c L) as [names o]. cbn [fst set_uniq set_names m_names] in *.
+  rewrite Hq. destruct (existsb (bytes_eqb n) L) eqn:E; [apply not_c_filter|].
+  intros Hin. destruct (Hcov n c Hin) as (n' & En & Hacq).
+  rewrite (existsb_eqb_in n n' L En (HL n' (in_owned k c n' Hacq))) in E. discriminate.
+Qed.
+
+Lemma td_names_covers k c L reg :
+  owned_covers k -> (forall n', In n' (owned k c) -> In n' L) -> owned_covers (fst (td_names k c L reg)).
+Proof.
+  intros Hcov HL n x Hin.
+  assert (Hx : x <> c). { intros ->. exact (td_names_no_queue k c L reg Hcov HL n Hin). }
+  unfold td_names in *. pose proof (queue_release_names L (m_names k) c n) as Hq.
+  destruct (release_names (m_names k) c L) as [names o]. cbn [fst set_uniq set_names m_names m_acq] in *.
+  rewrite Hq in Hin.
+  assert (Hin0 : In x (queue_of (m_names k) n)). { destruct (existsb _ L); [apply filter_In in Hin; tauto|exact Hin]. }
+  destruct (Hcov n x Hin0) as (n' & En & Hacq). exists n'. split; [exact En|].
+  apply filter_In. split; [exact Hacq|]. cbn. unfold not_c. apply negb_true_iff. apply N.eqb_neq. exact Hx.
+Qed.
+
+(* ---- the whole teardown -------------------------------------------------------------- *)
 Section Close.
   Variable k : mstate.
   Variable c : N.
   Variable active : bool.
+  Let k' := fst (mini_disconnect k c active).
 
-  Theorem disconnect_cleans_up :
-    let k' := fst (mini_disconnect k c active) in
-    (forall p, In p (m_pend k') -> fst (fst p) <> c /\ snd (fst p) <> c) /\
-    ~ In c (m_mons k') /\
-    (forall p, In p (m_uniq k') -> fst p <> c) /\
-    (forall p, In p (m_acq k') -> fst p <> c).
+  Lemma disconnect_unfold :
+    exists names o2 pend o5,
+      release_names (m_names k) c (rev (owned k c)) = (names, o2) /\ drop_pending (m_pend k) c = (pend, o5) /\
+      mini_disconnect k c active =
+      (mkM (m_next k) (filter (fun p => not_c c (fst p)) (m_uniq k)) names (filter (fun p => not_c c (fst p)) (m_acq k))
+           (filter (fun p => not_c c (fst p)) (m_rules k)) pend (filter (not_c c) (m_mons k)) (filter (not_c c) (m_completed k))
+           (m_maxuser k) (m_maxrules k) (m_baseusers k),
+       (o2 ++ (if mem c (map fst (m_uniq k)) then [(MON, Bye c)] else [])) ++ o5).
   Proof.
-    unfold mini_disconnect.
-    destruct (if active && negb (mem c (m_mons k)) then release_names (m_names k) c (owned_rev k c) else (m_names k, [])) as [names o].
-    pose proof (drop_pending_kept (m_pend k) c) as Hp.
-    destruct (drop_pending (m_pend k) c) as [pend errs]. cbn [fst] in *. cbn [set_pend forget_conn m_pend m_mons m_uniq m_acq].
-    repeat split.
-    - apply (Hp p H).
-    - apply (Hp p H).
-    - intros H. apply filter_In in H. destruct H as [_ H]. rewrite N.eqb_refl in H. discriminate.
-    - intros p H. apply filter_In in H. destruct H as [_ H]. apply negb_true_iff in H. apply N.eqb_neq in H. exact H.
-    - intros p H. apply filter_In in H. destruct H as [_ H]. apply negb_true_iff in H. apply N.eqb_neq in H. exact H.
+    unfold mini_disconnect, td_names, td_pending, td_lists, td_monitor, td_rules, set_rules, set_names, set_uniq, set_mons, set_completed, set_pend, owned.
+    cbn [m_names m_acq m_uniq m_next m_rules m_pend m_mons m_completed m_maxuser m_maxrules m_baseusers].
+    destruct (release_names (m_names k) c (rev (map snd (filter (fun p => fst p =? c) (m_acq k))))) as [names o2] eqn:E1.
+    cbn [m_names m_acq m_uniq m_next m_rules m_pend m_mons m_completed m_maxuser m_maxrules m_baseusers].
+    destruct (drop_pending (m_pend k) c) as [pend o5] eqn:E2.
+    exists names, o2, pend, o5. repeat split.
   Qed.
 
-  (* the defect class "NoReply sent to the connection that is being finalised" is excluded:
-     every NoReply produced by a disconnect goes to a DIFFERENT connection, one that had a call
-     outstanding to the departed one *)
+  (* C10 cleanup: no table mentions c any more *)
+  Theorem disconnect_cleans_up :
+    (forall p, In p (m_pend k') -> fst (fst p) <> c /\ snd (fst p) <> c) /\
+    ~ In c (m_mons k') /\
+    ~ In c (m_completed k') /\
+    (forall p, In p (m_uniq k') -> fst p <> c) /\
+    (forall p, In p (m_acq k') -> fst p <> c) /\
+    (forall p, In p (m_rules k') -> fst p <> c) /\
+    (owned_covers k -> forall n, ~ In c (queue_of (m_names k') n)).
+  Proof.
+    destruct disconnect_unfold as (names & o2 & pend & o5 & E1 & E2 & E). unfold k'. rewrite E. cbn [fst m_pend m_mons m_completed m_uniq m_acq m_rules m_names].
+    assert (Hf : forall (X : Type) (f : X -> N) (l : list X) p, In p (filter (fun p => not_c c (f p)) l) -> f p <> c).
+    { intros X f l p H. apply filter_In in H. destruct H as [_ H]. unfold not_c in H. apply negb_true_iff in H. apply N.eqb_neq in H. exact H. }
+    repeat split.
+    - pose proof (drop_pending_kept (m_pend k) c p) as H1. rewrite E2 in H1. cbn [fst] in H1. apply H1 in H. tauto.
+    - pose proof (drop_pending_kept (m_pend k) c p) as H1. rewrite E2 in H1. cbn [fst] in H1. apply H1 in H. tauto.
+    - apply not_c_filter.
+    - apply not_c_filter.
+    - intros p. apply (Hf _ fst).
+    - intros p. apply (Hf _ fst).
+    - intros p. apply (Hf _ fst).
+    - intros Hcov n.
+      pose proof (td_names_no_queue k c (rev (owned k c)) false Hcov (fun n' H => proj1 (in_rev _ _) H) n) as H.
+      unfold td_names in H. rewrite E1 in H. cbn [fst set_uniq set_names m_names] in H. exact H.
+  Qed.
+
+  (* the accounting that bus_connections_check_limits reads: n_completed / the per-uid count *)
+  Theorem disconnect_releases_slot : In c (m_completed k) -> NoDup (m_completed k) -> n_users k' + 1 = n_users k.
+  Proof.
+    intros Hin Hnd. destruct disconnect_unfold as (names & o2 & pend & o5 & _ & _ & E). unfold k'. rewrite E. cbn [fst]. unfold n_users. cbn [m_baseusers m_completed].
+    assert (H : (length (filter (not_c c) (m_completed k)) + 1 = length (m_completed k))%nat).
+    { revert Hin Hnd. generalize (m_completed k). induction l as [|x l IH]; [intros []|]. intros Hin Hnd. inversion Hnd as [|? ? Hx Hnd']. subst.
+      cbn [filter]. unfold not_c at 1. destruct (x =? c) eqn:E0; cbn [negb length].
+      - apply N.eqb_eq in E0. subst x. assert (F : filter (not_c c) l = l).
+        { clear -Hx. induction l as [|y l IH]; [reflexivity|]. cbn [filter]. unfold not_c at 1. destruct (y =? c) eqn:E; [apply N.eqb_eq in E; subst; exfalso; apply Hx; left; reflexivity|].
+          cbn [negb]. rewrite IH; [reflexivity|]. intros H. apply Hx. right. exact H. }
+        rewrite F. lia.
+      - destruct Hin as [->|Hin]; [rewrite N.eqb_refl in E0; discriminate|]. specialize (IH Hin Hnd'). lia. }
+    unfold nlen. lia.
+  Qed.
+
+  (* C10 frame: everybody else keeps what they had *)
+  Theorem disconnect_frame :
+    (forall p, fst p <> c -> (In p (m_uniq k') <-> In p (m_uniq k))) /\
+    (forall p, fst p <> c -> (In p (m_rules k') <-> In p (m_rules k))) /\
+    (forall p, fst p <> c -> (In p (m_acq k') <-> In p (m_acq k))) /\
+    (forall d, d <> c -> (In d (m_mons k') <-> In d (m_mons k)) /\ (In d (m_completed k') <-> In d (m_completed k))) /\
+    (forall p, fst (fst p) <> c -> snd (fst p) <> c -> (In p (m_pend k') <-> In p (m_pend k))) /\
+    (forall n, filter (not_c c) (queue_of (m_names k') n) = filter (not_c c) (queue_of (m_names k) n)) /\
+    m_next k' = m_next k /\ m_maxuser k' = m_maxuser k /\ m_maxrules k' = m_maxrules k /\ m_baseusers k' = m_baseusers k.
+  Proof.
+    destruct disconnect_unfold as (names & o2 & pend & o5 & E1 & E2 & E). unfold k'. rewrite E. cbn [fst m_pend m_mons m_completed m_uniq m_acq m_rules m_names m_next m_maxuser m_maxrules m_baseusers].
+    assert (Hf : forall (X : Type) (f : X -> N) (l : list X) p, f p <> c -> (In p (filter (fun p => not_c c (f p)) l) <-> In p l)).
+    { intros X f l p Hp. rewrite filter_In. unfold not_c. rewrite negb_true_iff, N.eqb_neq. tauto. }
+    repeat split; try (apply (Hf _ fst); assumption); try (apply (Hf _ (fun x => x)); assumption).
+    - intros Hin. pose proof (drop_pending_kept (m_pend k) c p) as H1. rewrite E2 in H1. apply H1 in Hin. tauto.
+    - intros Hin. pose proof (drop_pending_kept (m_pend k) c p) as H1. rewrite E2 in H1. apply H1. tauto.
+    - intros n. pose proof (queue_release_names (rev (owned k c)) (m_names k) c n) as Hq.
+      rewrite E1 in Hq. cbn [fst] in Hq. rewrite Hq.
+      destruct (existsb _ _); [apply filter_idem|reflexivity].
+  Qed.
+
+  (* C10 outputs: nothing but the prescribed signals and errors *)
+  Theorem disconnect_outputs_prescribed : forall x, In x (snd (mini_disconnect k c active)) ->
+    (exists n new, x = (MON, Noc n c new)) \/ x = (MON, Bye c) \/
+    (exists a s, x = (MON, NoReply a s) /\ a <> c /\ In (a, c, s) (m_pend k)).
+  Proof.
+    intros x. destruct disconnect_unfold as (names & o2 & pend & o5 & E1 & E2 & E). rewrite E. cbn [snd].
+    intros H. apply in_app_iff in H. destruct H as [H|H].
+    - apply in_app_iff in H. destruct H as [H|H].
+      + left. pose proof (release_names_outputs (rev (owned k c)) (m_names k) c x) as R. rewrite E1 in R. apply R. exact H.
+      + right. left. destruct (mem c _); [destruct H as [<-|[]]; reflexivity|destruct H].
+    - right. right. pose proof (drop_pending_errs (m_pend k) c x) as R. rewrite E2 in R. apply R. exact H.
+  Qed.
+
   Theorem no_error_to_departed : forall to s,
     In (MON, NoReply to s) (snd (mini_disconnect k c active)) -> to <> c /\ In (to, c, s) (m_pend k).
   Proof.
-    intros to s. unfold mini_disconnect.
-    destruct (if active && negb (mem c (m_mons k)) then release_names (m_names k) c (owned_rev k c) else (m_names k, [])) as [names o] eqn:Er.
-    pose proof (drop_pending_errs (m_pend k) c) as He.
-    destruct (drop_pending (m_pend k) c) as [pend errs]. cbn [snd] in *.
-    intros H. apply in_app_iff in H. destruct H as [H|H].
-    - exfalso. destruct (active && negb (mem c (m_mons k))).
-      + pose proof (release_names_outputs (owned_rev k c) (m_names k) c (MON, NoReply to s)) as R. rewrite Er in R. cbn [snd] in R.
-        destruct (R H) as (n & a & b & E). discriminate.
-      + inversion Er. subst o. destruct H.
-    - apply in_app_iff in H. destruct H as [H|H].
-      + exfalso. destruct (active && negb (mem c (m_mons k))); [destruct H as [H|[]]; discriminate | destruct H].
-      + destruct (He _ H) as (a & s' & E & Hne & Hin). inversion E. subst a s'. split; assumption.
+    intros to s H. destruct (disconnect_outputs_prescribed _ H) as [(n & new & E)|[E|(a & s' & E & Hne & Hin)]]; try discriminate.
+    inversion E. subst. split; assumption.
   Qed.
 
-  (* in particular a call the connection made to itself and never answered is forgotten silently *)
   Corollary self_call_forgotten : forall s, ~ In (MON, NoReply c s) (snd (mini_disconnect k c active)).
   Proof. intros s H. apply no_error_to_departed in H. destruct H as [H _]. apply H. reflexivity. Qed.
 End Close.
+
+(* ---- the invariant holds in every reachable state of the bus ------------------------- *)
+Lemma queue_cons n n0 q t : queue_of ((n0, q) :: t) n = if bytes_eqb n n0 then q else queue_of t n.
+Proof. unfold queue_of. cbn. destruct (bytes_eqb n n0); reflexivity. Qed.
+
+Lemma queue_acquire : forall names nm c dnq n,
+  let '(names', joined, _) := acquire names nm c dnq in
+  forall x, In x (queue_of names' n) -> In x (queue_of names n) \/ (x = c /\ bytes_eqb n nm = true /\ joined = true).
+Proof.
+  induction names as [|[n0 q] t IH]; intros nm c dnq n; cbn [acquire].
+  - intros x. rewrite queue_cons. destruct (bytes_eqb n nm) eqn:E; [|intros []]. intros [<-|[]]. right. auto.
+  - destruct (bytes_eqb nm n0) eqn:E.
+    + assert (En : bytes_eqb n nm = bytes_eqb n n0) by (apply bytes_eqb_trans_l; exact E).
+      destruct q as [|h q'].
+      * intros x. rewrite !queue_cons. rewrite En. destruct (bytes_eqb n n0); [|auto]. intros [<-|[]]. right. auto.
+      * destruct (mem c (h :: q') || dnq); [intros x; auto|].
+        intros x. rewrite !queue_cons. rewrite En. destruct (bytes_eqb n n0); [|auto]. intros H. apply in_app_iff in H. destruct H as [H|[<-|[]]]; [left; exact H|right; auto].
+    + specialize (IH nm c dnq n). destruct (acquire t nm c dnq) as [[t' j] o]. intros x. rewrite !queue_cons. destruct (bytes_eqb n n0); [auto|apply IH].
+Qed.
+
+Lemma dispatch_covers k c a m : owned_covers k -> owned_covers (fst (fst (mini_dispatch k c a m))).
+Proof.
+  intros Hcov. unfold mini_dispatch.
+  destruct (mem c (m_mons k)); [exact Hcov|].
+  destruct (str_field m DBUS_HEADER_FIELD_DESTINATION) as [d|]; [|destruct (msg_type m =? _); exact Hcov].
+  destruct (bytes_eqb d DBUS_SERVICE_DBUS_str).
+  - destruct a.
+    + destruct (is_request_name m).
+      * pose proof (queue_acquire (m_names k) (arg_string m) c (negb (N.land (rn_flags m) DBUS_NAME_FLAG_DO_NOT_QUEUE =? 0))) as Hq.
+        destruct (acquire (m_names k) (arg_string m) c _) as [[names joined] owner]. cbn [fst set_names].
+        intros n x Hin. cbn [m_names m_acq] in *. destruct (Hq n x Hin) as [H|(-> & En & ->)].
+        -- destruct (Hcov n x H) as (n' & E & Ha). exists n'. split; [exact E|]. destruct joined; [apply in_app_iff; left|]; exact Ha.
+        -- exists (arg_string m). split; [exact En|]. apply in_app_iff. right. left. reflexivity.
+      * destruct (is_add_match m); [destruct (m_maxrules k <=? n_rules k c); exact Hcov|].
+        destruct (is_become_monitor m); [|exact Hcov].
+        pose proof (td_names_covers k c (owned k c) false Hcov (fun n' H => H)) as H2.
+        destruct (td_names k c (owned k c) false) as [k2 o2]. cbn [fst] in H2.
+        unfold td_pending, td_rules. cbn [set_rules set_mons m_pend]. destruct (drop_pending _ c) as [pend errs]. cbn [fst]. exact H2.
+    + destruct (is_hello m); [|exact Hcov]. destruct (negb _); [exact Hcov|]. destruct (m_maxuser k <=? n_users k); exact Hcov.
+  - destruct a; [|exact Hcov]. destruct (resolve k d); exact Hcov.
+Qed.
+
+Lemma disconnect_covers k c a : owned_covers k -> owned_covers (fst (mini_disconnect k c a)).
+Proof.
+  intros Hcov. unfold mini_disconnect.
+  assert (Hcov1 : owned_covers (td_rules k c)) by exact Hcov.
+  pose proof (td_names_covers (td_rules k c) c (rev (owned (td_rules k c) c)) (mem c (map fst (m_uniq k))) Hcov1 (fun n' H => proj1 (in_rev _ _) H)) as H2.
+  destruct (td_names (td_rules k c) c _ _) as [k2 o2]. cbn [fst] in H2.
+  unfold td_pending, td_lists, td_monitor. cbn [set_completed set_mons m_pend]. destruct (drop_pending _ c) as [pend errs]. cbn [fst]. exact H2.
+Qed.
+
+(* in every state the bus model can reach, with any handshake, limits and schedule *)
+Theorem reachable_covers uid cf base mu mr h :
+  owned_covers (s_core (fst (run (mini_ops uid) cf (init (mini_core base mu mr)) h))).
+Proof.
+  apply (run_core (mini_ops uid) cf owned_covers).
+  - intros k c a m. apply dispatch_covers.
+  - intros k c a. apply disconnect_covers.
+  - intros n x H. destruct H.
+Qed.
